@@ -4,10 +4,12 @@
 package hash
 
 //@ func Hash.UnmarshalBinary
-//@   trusted
+//@   props C16 C04 C09
 //@   modifies *h
+//@   trustframe
 //@   ensures (err == nil) == (len(data) == Size)
-//@   ensures err == nil ==> *h == ufr[Hash]("hashOfBytes32", data)
+//@   ensures-trusted err == nil ==> *h == ufr[Hash]("hashOfBytes32", data)
+//@   note verified: exactly 32 bytes are accepted; the naming of the resulting value (a function of the bytes) is definitional
 
 //@ ghost func EmptyHash() Hash { return ufr[Hash]("emptyHash") }
 
